@@ -65,6 +65,18 @@ def mutate(rnd, cfg, stats):
             stats.append("rule_section_omitted" if c["omit_class"] else "rule_section_emptied")
         if rnd.random() < 0.6:
             return c
+    if rnd.random() < 0.15:
+        # nothing but the letter case of one string of one rule changes (criteria are case-sensitive globs, the
+        # class is reported verbatim), possibly right after an edit of the same string by the previous reload
+        cands = [(n, kk) for n in sorted(rules) for kk in ("class", "hostname", "username", "account")
+                 if isinstance(rules[n].get(kk), str) and rules[n][kk].swapcase() != rules[n][kk]]
+        if cands:
+            n, kk = rnd.choice(cands)
+            v = rules[n][kk]
+            rules[n][kk] = rnd.choice([v.upper(), v.title(), v.swapcase(), v.lower() if v.lower() != v else v.upper()])
+            stats.append("rule_string_case_changed")
+            if rnd.random() < 0.7:
+                return c
     for _ in range(rnd.randint(1, 3)):
         k = rnd.random()
         if k < 0.15 and svcs:
@@ -109,10 +121,10 @@ def mutate(rnd, cfg, stats):
 
 def gen_probe(rnd, cid):
     return {"cid": cid, "addr": rnd.choice(["10.0.0.1", "10.0.0.2", "10.0.1.9", "192.168.1.1", "2001:db8:0:1:0:0:0:5", "2001:db9:0:0:0:0:0:1"]),
-            "host": rnd.choice(["a.example.org", "h1.net", "zz.org", None]),
-            "ident": rnd.choice(["joe", "moe", "~joe", "~x"]), "nick": "N%d" % cid, "claimed": rnd.choice(["claim", "usr"]),
+            "host": rnd.choice(["a.example.org", "h1.net", "zz.org", None, "a.Example.Org", "H1.NET"]),
+            "ident": rnd.choice(["joe", "moe", "~joe", "~x", "Joe", "MOE"]), "nick": "N%d" % cid, "claimed": rnd.choice(["claim", "usr"]),
             "real": "Real Name", "pw": rnd.choice(["+x acct1 pw", "+ oper pw", None]),
-            "reply": rnd.choice(["OK", "OK acct1:1", "OK oper", "OK"]),
+            "reply": rnd.choice(["OK", "OK acct1:1", "OK oper", "OK", "OK Oper", "OK ACCT1:1"]),
             "order": rnd.sample(["host", "ident", "nick", "pw", "user"], 5)}
 
 
@@ -191,6 +203,24 @@ class ReloadProfile:
         chain = [gen_tables(rnd)]
         for _ in range(rnd.choice([1, 1, 1, 2, 3])):
             chain.append(mutate(rnd, chain[-1], stats))
+        if rnd.random() < 0.15:
+            # one string of one rule is edited by two successive reloads: first to another value, then in its
+            # letter case only (a change detector that remembers the previous value sees only the second kind)
+            base = chain[-1]
+            cands = [(n, kk) for n in sorted(base["rules"]) for kk in ("class", "hostname", "username", "account")
+                     if isinstance(base["rules"][n].get(kk), str)]
+            if cands:
+                n, kk = rnd.choice(cands)
+                c1 = copy.deepcopy(base)
+                c1["rules"][n][kk] = rnd.choice({"class": ["c7", "cx"], "hostname": ["*.example.org", "h1.*", "*.invalid"],
+                                                 "username": ["joe", "m?e", "j*"], "account": ["acct*", "oper", "op*"]}[kk])
+                c2 = copy.deepcopy(c1)
+                v = c1["rules"][n][kk]
+                c2["rules"][n][kk] = rnd.choice([v.upper(), v.title(), v.swapcase()])
+                if rnd.random() < 0.5:
+                    c1, c2 = c2, c1
+                chain += [c1, c2]
+                stats.append("rule_string_edited_then_case_only")
         probes = [gen_probe(rnd, 10 + i) for i in range(rnd.randint(2, 5))]
         pre = [gen_probe(rnd, 50 + i) for i in range(rnd.choice([0, 0, 1, 2]))]
         pending = [gen_probe(rnd, 70 + i) for i in range(rnd.choice([0, 0, 1]))]
